@@ -19,7 +19,7 @@ CONSTANTS Txs,          \* transactions
 
 \* a transaction's request as its user agent sends it: the UA sits at src, announces sentby, may ask for rport,
 \* may carry a spoofed received; deeper Via entries (an upstream proxy) stay beneath
-Shapes == [ src : {[ip |-> "ua1", port |-> 40001], [ip |-> "ua2", port |-> 40002]},
+Shapes == [ src : {[ip |-> "ua1", port |-> 24001], [ip |-> "ua2", port |-> 24002]},
             sentby : {[host |-> "ua1", port |-> 5062], [host |-> "name.example", port |-> 0],
                       [host |-> "self", port |-> 5062]},     \* "self": the UA's own address as a literal - only the PORT differs from the true source
             rport : {"none", "empty", "spoofed"}, spoofrecv : BOOLEAN, deep : BOOLEAN ]
